@@ -112,28 +112,39 @@ Theorem C12_init_ids_exact : forall pid pl p,
 Proof. exact init_phases_ids. Qed.
 Print Assumptions C12_init_ids_exact.
 
-(* the full invariant after construction (ids >= -1; the caller's list holds no phase
-   named "not_indexed" -- see C12_init_not_indexed_refuted for why this is needed) *)
-Theorem C12_init_invariant_outside_finding : forall pid pl props st,
-  (forall pl0, pl = Some pl0 -> sortedk pl0 /\ ~ In ni_name (names pl0)) ->
+(* the full invariant after construction, for ids >= -1 and ANY well-formed caller's list
+   (caller_ok: sorted, and a phase named "not_indexed" -- if there is one -- has id -1;
+   so the list may be another map's .phases) *)
+Theorem C12_init_invariant : forall pid pl props st,
+  (forall pl0, pl = Some pl0 -> caller_ok pl0) ->
   (forall x, In x pid -> -1 <= x) ->
   init pid pl props = Ok st -> Inv st.
 Proof. exact init_Inv. Qed.
-Print Assumptions C12_init_invariant_outside_finding.
+Print Assumptions C12_init_invariant.
 
-(* FINDING (model faithful, replayed on the implementation): a caller's list that holds
-   not_indexed at id -1 (e.g. another map's .phases) is relinked by list order, so
-   "not_indexed" lands on a non-negative id *)
-Theorem C12_init_not_indexed_refuted :
-  exists pid pl st,
-    sortedk pl /\ (forall i p, In (i, p) pl -> (pname p = ni_name <-> i = -1)) /\
-    (forall x, In x pid -> -1 <= x) /\ init pid (Some pl) [] = Ok st /\
-    exists i p, In (i, p) (s_phases st) /\ pname p = ni_name /\ i <> -1.
-Proof. exact init_not_indexed_refuted. Qed.
-Print Assumptions C12_init_not_indexed_refuted.
+(* a caller's list that holds not_indexed at id -1: after construction "not_indexed" is
+   still exactly the phase of id -1 (it used to be relinked by list order) *)
+Theorem C12_init_not_indexed : forall pid pl st,
+  sortedk pl -> (forall i p, In (i, p) pl -> (pname p = ni_name <-> i = -1)) ->
+  (forall x, In x pid -> -1 <= x) -> init pid (Some pl) [] = Ok st ->
+  forall i p, In (i, p) (s_phases st) -> (pname p = ni_name <-> i = -1).
+Proof. exact init_not_indexed. Qed.
+Print Assumptions C12_init_not_indexed.
+
+(* ... because the entry of id -1 takes no part in the linking: the constructor behaves as
+   if it had been removed from the caller's list (the rules below apply to strip_ni pl) *)
+Theorem C12_init_ignores_caller_not_indexed : forall pid pl props, sortedk pl ->
+  init pid (Some pl) props = init pid (Some (filter (fun kv => negb (fst kv =? -1)) pl)) props.
+Proof. exact init_ignores_caller_not_indexed. Qed.
+Print Assumptions C12_init_ignores_caller_not_indexed.
+
+Theorem C12_init_strip : forall pl, sortedk pl ->
+  strip_ni pl = filter (fun kv => negb (fst kv =? -1)) pl.
+Proof. exact (fun pl H => strip_ni_filter pl (sortedk_NoDup pl H)). Qed.
+Print Assumptions C12_init_strip.
 
 (* the linking rule, as closed forms of the constructor's reconciliation.
-   u = sorted ids of the data without -1. *)
+   u = sorted ids of the data without -1; pl = the caller's list without its entry of id -1. *)
 (* same ids: the list is kept *)
 Theorem C12_init_rule_same_ids : forall pl, sortedk pl -> reconcile pl (ids pl) = pl.
 Proof. exact reconcile_same_ids. Qed.
@@ -175,40 +186,51 @@ Proof. exact step_Inv. Qed.
 Print Assumptions C12_step_invariant.
 
 (* every state reachable from a construction by any sequence of selections (by names,
-   indexed / not_indexed, masks; from any earlier selection), scalar phase_id
-   assignments of -1 or listed ids, array assignments of listed ids, property assignments
+   indexed / not_indexed, masks; from any earlier selection), scalar or array phase_id
+   assignments of -1 or listed ids, property assignments
    and add / delete(unused id) / add_not_indexed / sort on the map's phase list satisfies:
    ids sorted and unique; every phase id of the data (hence of every selection) is listed;
    a phase is named not_indexed iff its id is -1. *)
-Theorem C12_history_invariant_outside_finding : forall pid pl props st v0 ops,
-  (forall pl0, pl = Some pl0 -> sortedk pl0 /\ ~ In ni_name (names pl0)) ->
+Theorem C12_history_invariant : forall pid pl props st v0 ops,
+  (forall pl0, pl = Some pl0 -> caller_ok pl0) ->
   (forall x, In x pid -> -1 <= x) ->
   init pid pl props = Ok st ->
   run_ok ops (mkState st [v0]) ->
   Inv (m_store (run ops (mkState st [v0]))).
 Proof. exact reachable_Inv. Qed.
-Print Assumptions C12_history_invariant_outside_finding.
+Print Assumptions C12_history_invariant.
 
-(* FINDING: array assignment of ids that are -1 or listed (length >= 2) breaks the
-   invariant when -1 is assigned and not_indexed is not yet listed ... *)
-Theorem C12_set_phase_id_array_refuted :
-  exists st v zs, Inv st /\ List.length v = List.length (s_pid st) /\ List.length zs = count v /\
-    (forall z, In z zs -> z = -1 \/ In z (ids (s_phases st))) /\
-    ~ Inv (fst (set_pid st v (PArr zs))).
-Proof. exact set_pid_array_refuted. Qed.
-Print Assumptions C12_set_phase_id_array_refuted.
+(* array assignment of ids that are -1 or listed keeps the invariant (the property's own
+   side condition; it used to break when -1 was assigned and not_indexed was not listed) *)
+Theorem C12_set_phase_id_array_invariant : forall st v zs, Inv st ->
+  (forall z, In z zs -> z = -1 \/ In z (ids (s_phases st))) ->
+  Inv (fst (set_pid st v (PArr zs))).
+Proof. exact set_pid_array_Inv. Qed.
+Print Assumptions C12_set_phase_id_array_invariant.
 
-(* ... and EVERY array assignment of the right length >= 2 assigns exactly the selected
-   points and THEN raises ValueError, leaving the phase list untouched *)
-Theorem C12_set_phase_id_array_frame_and_raises : forall st v zs,
-  List.length v = List.length (s_pid st) -> List.length zs = count v -> (2 <= List.length zs)%nat ->
+(* EVERY array assignment of the right length (any length, also 0 and 1) assigns exactly the
+   selected points, raises nothing, and adds not_indexed iff -1 is among the values and
+   not_indexed is not listed yet *)
+Theorem C12_set_phase_id_array_frame : forall st v zs,
+  List.length v = List.length (s_pid st) -> List.length zs = count v ->
   let st' := fst (set_pid st v (PArr zs)) in
   select_by v (s_pid st') = zs /\
   select_by (map negb v) (s_pid st') = select_by (map negb v) (s_pid st) /\
-  s_props st' = s_props st /\ s_phases st' = s_phases st /\
-  snd (set_pid st v (PArr zs)) = Some ValueError.
+  s_props st' = s_props st /\ s_phases st' = maybe_add_ni zs (s_phases st) /\
+  snd (set_pid st v (PArr zs)) = None.
 Proof. exact set_pid_array_frame. Qed.
-Print Assumptions C12_set_phase_id_array_frame_and_raises.
+Print Assumptions C12_set_phase_id_array_frame.
+
+Theorem C12_set_phase_id_adds_not_indexed : forall zs pl, PInv pl ->
+  maybe_add_ni zs pl = if has_m1 zs && negb (memZ (-1) (ids pl)) then add_not_indexed pl else pl.
+Proof. exact maybe_add_ni_spec. Qed.
+Print Assumptions C12_set_phase_id_adds_not_indexed.
+
+(* an array of another length (a length-1 array is broadcast) is rejected, nothing changes *)
+Theorem C12_set_phase_id_array_bad_length : forall st v zs, List.length zs <> 1%nat ->
+  List.length zs <> count v -> set_pid st v (PArr zs) = (st, Some ValueError).
+Proof. exact set_pid_array_bad_length. Qed.
+Print Assumptions C12_set_phase_id_array_bad_length.
 
 (* scalar assignment through a selection changes exactly the selected points *)
 Theorem C12_set_phase_id_scalar_frame : forall st v z, List.length v = List.length (s_pid st) ->
@@ -228,28 +250,20 @@ Theorem C12_phases_in_data_many : forall st v, Inv st -> (2 <= List.length (pres
 Proof. exact phases_in_data_many. Qed.
 Print Assumptions C12_phases_in_data_many.
 
-(* one phase in the selection, no other listed phase with the same name: exact *)
-Theorem C12_phases_in_data_single_outside_finding : forall st v i p, Inv st -> present st v = [i] ->
+(* one phase in the selection: exactly that phase under the id present, whatever the names
+   (it used to be labelled with the first id carrying the same name) *)
+Theorem C12_phases_in_data_single : forall st v i p, Inv st -> present st v = [i] ->
   dict_get i (s_phases st) = Some p ->
-  (forall j q, In (j, q) (s_phases st) -> pname q = pname p -> j = i) ->
   phases_in_data st v = Ok [(i, p)].
-Proof. exact phases_in_data_single_exact. Qed.
-Print Assumptions C12_phases_in_data_single_outside_finding.
-
-(* in general the single phase is right but labelled with the FIRST id carrying its name *)
-Theorem C12_phases_in_data_single_partial : forall st v i p, Inv st -> present st v = [i] ->
-  dict_get i (s_phases st) = Some p ->
-  exists j, first_id_with_name (pname p) (s_phases st) = Some j /\
-            phases_in_data st v = Ok [(j, p)] /\ In j (ids (s_phases st)).
 Proof. exact phases_in_data_single. Qed.
-Print Assumptions C12_phases_in_data_single_partial.
+Print Assumptions C12_phases_in_data_single.
 
-(* FINDING: unnamed phases 0 and 3, selection holding only id 3: phases_in_data says id 0 *)
-Theorem C12_phases_in_data_refuted :
-  exists st v pl, Inv st /\ List.length v = List.length (s_pid st) /\
-    phases_in_data st v = Ok pl /\ ids pl <> present st v.
-Proof. exact phases_in_data_refuted. Qed.
-Print Assumptions C12_phases_in_data_refuted.
+(* any non-empty selection: the ids of phases_in_data are exactly the ids present *)
+Theorem C12_phases_in_data_ids : forall st v, Inv st -> present st v <> [] ->
+  exists sel, phases_in_data st v = Ok sel /\ ids sel = present st v /\
+              (forall x, In x sel -> In x (s_phases st)) /\ sortedk sel.
+Proof. exact phases_in_data_ids. Qed.
+Print Assumptions C12_phases_in_data_ids.
 
 (* orientations of a single-phase selection carry that phase's point group (TypeError when
    the phase has none); several phases -> ValueError *)
@@ -266,48 +280,58 @@ Print Assumptions C12_orientations_many.
 
 (* ============================================ property assignment *)
 
-(* value dtype = array dtype: exactly the selected points change, other keys untouched *)
-Theorem C12_set_prop_scalar_frame_outside_finding : forall st v k a z,
+(* ANY value dtype: exactly the selected points take the (converted) values; every other
+   point keeps its value, converted to the new dtype; that dtype (the value's when all points
+   are selected, else the common dtype) holds the assigned values exactly, and the values of
+   the points outside the selection whenever there are any; other keys, phase ids and phases
+   are untouched.  (An int value assigned through a selection used to truncate the float
+   values of all unselected points.) *)
+Theorem C12_set_prop_scalar_frame : forall st v k a d z,
   prop_get k (s_props st) = Some a -> List.length v = List.length (pvals a) ->
-  let st' := fst (set_prop st v k (VScalar (pdt a) z)) in
-  exists a', prop_get k (s_props st') = Some a' /\ pdt a' = pdt a /\
-    select_by v (pvals a') = repeat z (count v) /\
-    select_by (map negb v) (pvals a') = select_by (map negb v) (pvals a) /\
+  let st' := fst (set_prop st v k (VScalar d z)) in
+  exists a', prop_get k (s_props st') = Some a' /\ pdt a' = new_dtype v (pdt a) d /\
+    select_by v (pvals a') = repeat (cast1 d (pdt a') z) (count v) /\
+    select_by (map negb v) (pvals a') = map (cast1 (pdt a) (pdt a')) (select_by (map negb v) (pvals a)) /\
+    lossless d (pdt a') /\
+    (select_by (map negb v) (pvals a) <> [] -> lossless (pdt a) (pdt a')) /\
     s_pid st' = s_pid st /\ s_phases st' = s_phases st /\
     (forall k', k' <> k -> prop_get k' (s_props st') = prop_get k' (s_props st)).
 Proof. exact set_prop_scalar_frame. Qed.
-Print Assumptions C12_set_prop_scalar_frame_outside_finding.
+Print Assumptions C12_set_prop_scalar_frame.
 
-Theorem C12_set_prop_array_frame_outside_finding : forall st v k a zs,
+Theorem C12_set_prop_array_frame : forall st v k a d zs,
   prop_get k (s_props st) = Some a -> List.length v = List.length (pvals a) ->
-  List.length zs = count v -> (2 <= List.length zs)%nat ->
-  let st' := fst (set_prop st v k (VArr (pdt a) zs)) in
-  exists a', prop_get k (s_props st') = Some a' /\ pdt a' = pdt a /\
-    select_by v (pvals a') = zs /\
-    select_by (map negb v) (pvals a') = select_by (map negb v) (pvals a) /\
+  List.length zs = count v ->
+  let st' := fst (set_prop st v k (VArr d zs)) in
+  exists a', prop_get k (s_props st') = Some a' /\ pdt a' = new_dtype v (pdt a) d /\
+    select_by v (pvals a') = map (cast1 d (pdt a')) zs /\
+    select_by (map negb v) (pvals a') = map (cast1 (pdt a) (pdt a')) (select_by (map negb v) (pvals a)) /\
+    lossless d (pdt a') /\
+    (select_by (map negb v) (pvals a) <> [] -> lossless (pdt a) (pdt a')) /\
     s_pid st' = s_pid st /\ s_phases st' = s_phases st /\
     (forall k', k' <> k -> prop_get k' (s_props st') = prop_get k' (s_props st)).
 Proof. exact set_prop_array_frame. Qed.
-Print Assumptions C12_set_prop_array_frame_outside_finding.
+Print Assumptions C12_set_prop_array_frame.
 
-(* int array, float value: the unselected points keep their numbers (as floats) *)
-Theorem C12_set_prop_int_to_float_frame : forall st v k l z,
-  prop_get k (s_props st) = Some (mkArr DInt l) -> List.length v = List.length l ->
-  let st' := fst (set_prop st v k (VScalar DFlt z)) in
-  exists a', prop_get k (s_props st') = Some a' /\ pdt a' = DFlt /\
-    select_by v (pvals a') = repeat z (count v) /\
-    select_by (map negb v) (pvals a') = map (fun x => x * 4) (select_by (map negb v) l).
-Proof. exact set_prop_int_to_float_frame. Qed.
-Print Assumptions C12_set_prop_int_to_float_frame.
+(* a lossless cast keeps the NUMBER (floats are stored as quarters, ints as units); equal
+   dtypes: the stored value itself *)
+Theorem C12_lossless_cast : forall a b x,
+  (lossless a b -> quarters b (cast1 a b x) = quarters a x) /\ cast1 a a x = x /\
+  (forall v, new_dtype v a a = a).
+Proof.
+  exact (fun a b x => conj (cast1_quarters a b x) (conj (cast1_same a x) (fun v => promote_same_new v a))).
+Qed.
+Print Assumptions C12_lossless_cast.
 
-(* FINDING: float array, int value: the WHOLE array is cast, unselected 0.5 becomes 0 *)
-Theorem C12_set_prop_frame_refuted :
-  exists st v k a z a',
-    prop_get k (s_props st) = Some a /\ List.length v = List.length (pvals a) /\ pdt a = DFlt /\
-    prop_get k (s_props (fst (set_prop st v k (VScalar DInt z)))) = Some a' /\ pdt a' = DInt /\
-    map (fun x => x * 4) (select_by (map negb v) (pvals a')) <> select_by (map negb v) (pvals a).
-Proof. exact set_prop_frame_refuted. Qed.
-Print Assumptions C12_set_prop_frame_refuted.
+(* hence: whatever is assigned (and accepted), no point outside the selection changes its number *)
+Theorem C12_set_prop_keeps_unselected : forall st v k a val,
+  prop_get k (s_props st) = Some a -> List.length v = List.length (pvals a) ->
+  snd (set_prop st v k val) = None ->
+  exists a', prop_get k (s_props (fst (set_prop st v k val))) = Some a' /\
+    map (quarters (pdt a')) (select_by (map negb v) (pvals a'))
+    = map (quarters (pdt a)) (select_by (map negb v) (pvals a)).
+Proof. exact set_prop_keeps_unselected_numbers. Qed.
+Print Assumptions C12_set_prop_keeps_unselected.
 
 (* ======================================================= selections *)
 
@@ -350,3 +374,24 @@ Example C12_slice_nonvacuous :
   index [(-1, ni_phase); (0, default_phase); (2, mkPhase "c" None 0)] (KSlice (Some 0) (Some 2) None)
   = IMany [(-1, ni_phase); (0, default_phase)].
 Proof. exact slice_nonvacuous. Qed.
+
+(* the former witnesses of the four repaired findings, now with the right results *)
+Example C12_init_not_indexed_witness :
+  init [0; 1; 2] (Some w1_pl) []
+  = Ok (mkStore [0; 1; 2] [(0, mkPhase "a" (Some "m-3m"%string) 0); (1, mkPhase "b" None 0); (2, default_phase)] []).
+Proof. exact init_not_indexed_witness. Qed.
+
+Example C12_set_phase_id_array_witness :
+  set_pid w2_st [true; true] (PArr [-1; 0])
+  = (mkStore [-1; 0] [(-1, ni_phase); (0, default_phase)] [], None).
+Proof. exact set_pid_array_witness. Qed.
+
+Example C12_phases_in_data_witness :
+  phases_in_data w3_st [false; false; true] = Ok [(3, default_phase)].
+Proof. exact phases_in_data_witness. Qed.
+
+Example C12_set_prop_witness :
+  s_props (fst (set_prop (mkStore [0; 0] [(0, default_phase)] [("iq"%string, mkArr DFlt [2; 6])]) [false; true] "iq"
+                         (VScalar DInt 7)))
+  = [("iq"%string, mkArr DFlt [2; 28])].
+Proof. exact set_prop_witness. Qed.
